@@ -1210,6 +1210,59 @@ def normalise_shortcircuit(tree):
     return n
 
 
+def normalise_local_lambdas(tree, known):
+    """a nested `def g(a, b): [del b]; return E` that is new with respect to the pinned inventory and whose name is only read in the
+    enclosing function is the value `lambda a, b: E` (deleting an unused parameter has no effect); uses of g become that lambda."""
+    n = 0
+    for outer in [f for f in ast.walk(tree) if isinstance(f, (ast.FunctionDef, ast.AsyncFunctionDef))]:
+        qual = []
+        par = outer
+        while par is not None:
+            if isinstance(par, (ast.FunctionDef, ast.AsyncFunctionDef, ast.ClassDef)):
+                qual.append(par.name)
+            par = getattr(par, "_parent", None)
+        prefix = ".".join(reversed(qual))
+        for g in [st for st in list(outer.body) if isinstance(st, ast.FunctionDef)]:
+            if g.decorator_list or (prefix + "." + g.name) in known or g.name in known:
+                continue
+            body = list(g.body)
+            if body and isinstance(body[0], ast.Expr) and isinstance(body[0].value, ast.Constant) and isinstance(body[0].value.value, str):
+                body = body[1:]
+            params = {a.arg for a in g.args.posonlyargs + g.args.args + g.args.kwonlyargs}
+            while body and isinstance(body[0], ast.Delete) and all(isinstance(t, ast.Name) and t.id in params for t in body[0].targets):
+                deleted = {t.id for t in body[0].targets}
+                if any(isinstance(x, ast.Name) and x.id in deleted for st in body[1:] for x in ast.walk(st)):
+                    break
+                body = body[1:]
+            if len(body) != 1 or not isinstance(body[0], ast.Return) or body[0].value is None:
+                continue
+            expr = body[0].value
+            if any(isinstance(x, (ast.Yield, ast.YieldFrom, ast.Await, ast.NamedExpr)) for x in ast.walk(expr)):
+                continue
+            if any(isinstance(x, ast.Name) and x.id == g.name for x in ast.walk(expr)):
+                continue
+            uses = [x for st in outer.body if st is not g for x in ast.walk(st) if isinstance(x, ast.Name) and x.id == g.name]
+            if not uses or any(not isinstance(x.ctx, ast.Load) for x in uses):
+                continue
+            lam = ast.Lambda(args=g.args, body=expr)
+
+            class R(ast.NodeTransformer):
+                def visit_Name(self, node):
+                    if node.id == g.name and isinstance(node.ctx, ast.Load):
+                        return ast.copy_location(copy.deepcopy(lam), node)
+                    return node
+
+            new_body = []
+            for st in outer.body:
+                if st is g:
+                    continue
+                new_body.append(R().visit(st))
+            outer.body = new_body or [ast.Pass()]
+            ast.fix_missing_locations(outer)
+            n += 1
+    return n
+
+
 # ------------------------------------------------------------------------------------------ entry point
 def normalise_program(trees):
     """trees: path -> ast.Module (mutated in place).  Returns {path: number of inlined call sites}."""
@@ -1223,6 +1276,18 @@ def normalise_program(trees):
         n_ += normalise_shortcircuit(tree)
         if n_:
             reshaped[path] = n_
+    inv0 = inventory()
+    if inv0:
+        for path, tree in trees.items():
+            known0 = inv0.get(path)
+            if known0 is None:
+                continue
+            for x_ in ast.walk(tree):
+                for ch_ in ast.iter_child_nodes(x_):
+                    ch_._parent = x_
+            k_ = normalise_local_lambdas(tree, set(known0))
+            if k_:
+                reshaped[path] = reshaped.get(path, 0) + k_
     inv = inventory()
     if not inv:
         return reshaped
